@@ -199,9 +199,8 @@ func genCase(r *prng.R, mode int) []string {
 				rs[i].name = ""
 			}
 		}
-		if rs[i].spill || rs[i].win == 0 {
-			noCounters = true
-		}
+		// (since fix F09d a metrics scrape only reads: it is generated for every kind of case,
+		//  spill-over and zero windows included)
 		ops = append(ops, rs[i].line())
 	}
 	t := base*sec + int64(r.Intn(int(sec)))
@@ -304,7 +303,20 @@ func gen(r *prng.R, f proto.Flags, emit func(proto.Case)) {
 			fmt.Sprintf("remedy id=1 name=q allowed=%d win=2 status=503 spill=0 renew=0", allowed)}
 		t := 1000*sec + 1 + int64(rr.Intn(int(sec)-1))
 		for j := 0; j < 6; j++ {
-			switch rr.Intn(3) {
+			switch rr.Intn(4) {
+			case 3:
+				// several groups at once, some never seen before: concurrent get-or-create on the shared map
+				l := fmt.Sprintf("burst id=0 t=%d n=%d par=%d", t, rr.Range(8, 96), rr.Range(2, 32))
+				na := rr.Range(2, 6)
+				off := rr.Intn(20)
+				for a := 0; a < na; a++ {
+					v := prng.Pick(rr, []string{"a", "b", "c"})
+					if a > 0 {
+						v = fmt.Sprintf("k%d", off+a) // distinct fresh values
+					}
+					l += " alt=g&" + v
+				}
+				ops = append(ops, l)
 			case 0:
 				ops = append(ops, fmt.Sprintf("burst id=0 t=%d h=g&%s n=%d par=%d", t, prng.Pick(rr, []string{"a", "b", "c"}), rr.Range(1, 64), rr.Range(2, 32)))
 			case 1:
